@@ -148,12 +148,12 @@ ORDER = ['C%02d' % i for i in range(1, 19)]
 LITERAL = {
  'C06': "Literal specification (Props/C06b): the same injectivity / disjointness facts read on the formatted messages exactly as Spec.sign / verify / hashSign / hashVerify (Algorithms 2-5 as written) build them, for contexts of at most 255 bytes; the three OIDs of Spec.oidAndDigest are pairwise different and of equal length.",
  'C18': "Literal specification (Props/C18c): the standard's own transforms multiply in Z_q[X]/(X^256+1): Spec.invNtt(Spec.ntt a ∘ Spec.ntt b) is the canonical representative of the schoolbook product reduced by X^256 = -1, for all a, b.",
- 'C09': "Literal specification (Props/C09d): on Spec/* alone, pkEncode(pkDecode(pk)) = pk for every byte string of public-key length (so Algorithm 23 is injective) and skEncode(skDecode(sk)) = sk for every private-key string whose s1, s2 sections decode into [-eta, eta].",
+ 'C09': "Literal specification (Props/C09d): on Spec/* alone, pkEncode(pkDecode(pk)) = pk for every byte string of public-key length (so Algorithm 23 is injective) and skEncode(skDecode(sk)) = sk for every private-key string whose s1, s2 sections decode into [-eta, eta]; conversely pkDecode(pkEncode(rho, t1)) = (rho, t1) and skDecode(skEncode(..)) returns its six arguments on in-range inputs: Algorithms 22/23 and 24/25 are mutually inverse.",
  'C05': "Literal specification (Props/C05c): the same two collision theorems stated on Spec.verify / Spec.hashVerify (Algorithms 3 / 5 as written), with no reference to the crate: two accepted interpretations of one signature, one tuple accepted under two public-key byte strings, or two accepted signature strings that differ only in the hint section (on Spec.verifyInternal) exhibit a pre-hash or SHAKE256 collision.",
  'C11': "Literal specification (Props/C11c): derived_public_key_bytes_are_the_standards - whenever Spec.keyGenInternal(xi) = (pk, sk), deserialising sk succeeds, private_to_public_key succeeds and the derived key serialises to exactly pk.",
  'C07': "Literal specification (Props/C02d, C03e): the four entry points equal Spec.verify / hashVerify / sign / hashSign (Algorithms 2-5 as written) for every context length; these are executed on every run at the lengths around the limit against the crate.",
  'C01': "Literal specification (Props/C01d): fips_204_signatures_verify_as_written - carried through the crate by the three whole-function theorems, the round trip holds of the transcription of the standard itself: "
-        "whenever Spec.keyGenInternal(xi) = (pk, sk) and Spec.signInternal(skDecode sk, M', rnd) = sigma, Spec.verifyInternal(pk, M', sigma) = true, for every seed, formatted message, rnd and oracle pair with SHAKE's prefix property; and the same for Algorithms 2+3 and 4+5 (ml_dsa_sign_then_verify_as_written, hash_ml_dsa_sign_then_verify_as_written).",
+        "whenever Spec.keyGenInternal(xi) = (pk, sk) and Spec.signInternal(skDecode sk, M', rnd) = sigma, Spec.verifyInternal(pk, M', sigma) = true, for every seed, formatted message, rnd and oracle pair with SHAKE's prefix property; and the same for Algorithms 2+3 and 4+5 (ml_dsa_sign_then_verify_as_written, hash_ml_dsa_sign_then_verify_as_written); fips_204_signatures_verify_for_the_executed_shake / hash_ml_dsa_sign_then_verify_for_the_executed_hashes: the same with no hypothesis on the hash functions, for the SHAKE / SHA-2 the model driver executes (Lemmas/OracleReal proves OracleOk, OraclePrefix, Spec.WF of them).",
  'C02': "Literal specification (Props/C02c): verification_is_fips_204_algorithm_8_as_written - from the public-key bytes and the signature bytes, expand_public + verify_internal return exactly the Boolean of Spec.verifyInternal "
         "(Algorithms 8, 21, 23, 27, 28, 29, 30, 32, 35-42 and Table 1 transcribed on explicit bit strings and XOF streams), for every input, both build modes. The transcription itself is executed on every run (driver operations spec_verify / spec_sign / spec_keygen) against the crate. Props/C02d: verify and hash_verify are Algorithms 3 and 5 as written (Spec.verify / Spec.hashVerify: context rejection for every context length, M' formatting, OID / digest table), from the key bytes.",
  'C03': "Literal specification (Props/C03c, C03d): sign_internal_is_Sign_internal_as_written - for every accepted private-key byte string, message, context, pre-hash input and rnd, sign_internal on the struct expand_private built "
@@ -161,7 +161,7 @@ LITERAL = {
         "(uses that a shorter SHAKE256 request is a prefix of a longer one). Props/C03e: try_sign_with_rng and try_hash_sign_with_rng are Algorithms 2 and 4 as written (Spec.sign / Spec.hashSign) for every context length and every generator that delivers rnd.",
  'C04': "Literal specification (Props/C04c): keygen_is_algorithm_6_as_written - for every seed, key generation followed by serialisation returns the byte strings of Spec.keyGenInternal "
         "(Algorithm 6 on Algorithms 30-33, 41, 42, 35, 22, 24, 16, 17 as transcribed), so the Lean specification no longer shares sampler or encoder code with the model. Props/C04d: try_keygen_with_rng is Algorithm 1 as written (Spec.keyGen).",
- 'C08': "Props/C08d: Spec.sigDecode(Spec.sigEncode(c~, z, h)) = (c~, z, h) on well-formed triples and Spec.sigEncode(Spec.sigDecode(sigma)) = sigma on every accepted string - the standard's signature codec, as transcribed, is a bijection. Literal specification (Props/C08c): bit_pack / bit_unpack / simple variants are Algorithms 16-19 on explicit bit strings, hint_bit_pack / hint_bit_unpack are Algorithms 20 / 21, sig_encode / sig_decode are Algorithms 26 / 27, for all inputs.",
+ 'C08': "Props/C08d: Spec.sigDecode(Spec.sigEncode(c~, z, h)) = (c~, z, h) on well-formed triples and Spec.sigEncode(Spec.sigDecode(sigma)) = sigma on every accepted string - the standard's signature codec, as transcribed, is a bijection; likewise Spec.hintBitUnpack(Spec.hintBitPack h) = h and Spec.hintBitPack(Spec.hintBitUnpack y) = y (Algorithms 20 / 21). Literal specification (Props/C08c): bit_pack / bit_unpack / simple variants are Algorithms 16-19 on explicit bit strings, hint_bit_pack / hint_bit_unpack are Algorithms 20 / 21, sig_encode / sig_decode are Algorithms 26 / 27, for all inputs.",
  'C10': "Literal specification (Props/C10c): sk_decode returns Ok iff every coefficient of Algorithm 25's s1, s2 (Spec.skDecode on the bytes) lies in [-eta, eta], and then returns exactly Algorithm 25's tuple.",
 }
 
